@@ -72,6 +72,14 @@ CHECKS = {
          "deterministic simulation: one adversarial message per run through the real SMTP server, manager and store on the simulated network (seeded segmentation, small buffers), read back through the store, the REST and web-UI source handlers (real router) and the real POP3 server; byte-exact oracle after CRLF->LF normalisation",
          "Seeded search over body shapes (dot lines, lone dot, bare CR/LF, NUL/8-bit, lines up to 200 KB / 3 MiB, missing final newline) x back-ends x segmentations of the SMTP and POP3 streams.",
          "HTTP handlers are invoked through the real router with a recording writer (no net/http server loop). A CR right before CRLF/end of data and a dot right after a bare LF are not generated (no defined expectation)."),
+ "C04": ("exploration", "DESIGN.md §4 C04",
+         "deterministic simulation (reach, not schedule power - see caveat): mail delivered over the real SMTP server to generated addresses in each naming mode is looked up through REST, web UI, Go client and POP3 by the address as sent, the reference model's name, the server-reported name, case-permuted and +tag variants; independent naming reference model",
+         "Seeded search over address shapes (quoted/escaped local parts, source routes, IP literals, mixed case, '+' and '.' placement) x naming modes x lookup keys x interfaces, inside the assembled system. The naming function itself is pure; what the simulation contributes is that every interface of the running system is exercised with the same keys.",
+         "naming model written from doc/config.md and the property text, not from pkg/policy. IPv6 literals are not generated."),
+ "C14": ("exploration", "DESIGN.md §4 C14",
+         "deterministic simulation (reach): histories mixing deliveries with list/get/source/mark-seen/delete/purge through the real router and handlers (REST, web UI) and the bundled Go client over an in-process transport that serialises and re-parses every request; both real stores; store compared with a reference model after every call; handler panics recovered and reported",
+         "Seeded search over API call histories x mailbox names/ids (existing, missing, 'latest', URL-significant characters, case variants) x back-ends x base paths.",
+         "net/http's server loop is not run: requests go through http.ReadRequest on their wire form and the real router. Ids with URL-significant characters are not passed to the Go client (it does not escape ids)."),
 }
 
 NOT_YET = "check under construction in this session; not claimed until it runs clean on the unchanged tree"
